@@ -203,6 +203,14 @@ pub fn gen_header(g: &mut Gen, mode: Mode, version: u8, size: Size, ptype: PicTy
         let n = g.range(1, 3) as usize;
         h.pei = g.bytes(n);
     }
+    if mode == Mode::Standard && ptype == PicType::I {
+        // an optional mode that means nothing for an intra picture, switched on in its header
+        h.umv = g.chance(1, 4);
+    }
+    if mode == Mode::Standard && h.plus == PlusForm::Full {
+        // Reference Picture Selection mode, never selecting anything but the previous picture
+        h.rps = g.chance(1, 5);
+    }
     h
 }
 
@@ -350,6 +358,25 @@ pub fn gen_events(g: &mut Gen, hdr: &Header, first: usize, shape: Shape) -> Vec<
     evs
 }
 
+/// Events of one block of a detailed macroblock: freshly generated, or (one time in six, when
+/// the picture already has some) a verbatim repeat of a block generated earlier in this picture.
+fn gen_events_pooled(g: &mut Gen, hdr: &Header, first: usize) -> Vec<Event> {
+    let v1 = hdr.is_v1();
+    if g.chance(1, 6) {
+        let candidates: Vec<usize> = g.block_pool.iter().enumerate().filter(|(_, b)| b.0 == first && b.1 == v1).map(|(i, _)| i).collect();
+        if !candidates.is_empty() {
+            let k = candidates[g.below(candidates.len() as u32) as usize];
+            return g.block_pool[k].2.clone();
+        }
+    }
+    let shape = gen_shape(g);
+    let ev = gen_events(g, hdr, first, shape);
+    if !ev.is_empty() && g.block_pool.len() < 6 {
+        g.block_pool.push((first, v1, ev.clone()));
+    }
+    ev
+}
+
 /// Content density: probability (out of 16) that a macroblock gets fully detailed content.
 fn detail_odds(total_mbs: usize, cfg: &PicCfg) -> u32 {
     // a detailed macroblock costs roughly 60 words on average
@@ -370,8 +397,7 @@ pub fn gen_intra_mb(g: &mut Gen, hdr: &Header, detailed: bool, allow_q: bool) ->
     if detailed {
         for b in 0..6 {
             mb.blocks[b].dc = gen_intradc(g);
-            let shape = gen_shape(g);
-            mb.blocks[b].events = gen_events(g, hdr, 1, shape);
+            mb.blocks[b].events = gen_events_pooled(g, hdr, 1);
         }
     } else {
         // cheap macroblock: one tape word; DC levels spread over the blocks and two low-frequency
@@ -430,8 +456,7 @@ pub fn gen_inter_mb(g: &mut Gen, hdr: &Header, detailed: bool) -> Mb {
             mb.blocks[b].dc = gen_intradc(g);
         }
         if detailed {
-            let shape = gen_shape(g);
-            mb.blocks[b].events = gen_events(g, hdr, if kind.is_intra() { 1 } else { 0 }, shape);
+            mb.blocks[b].events = gen_events_pooled(g, hdr, if kind.is_intra() { 1 } else { 0 });
         } else if g.chance(1, 6) {
             mb.blocks[b].events = gen_events(g, hdr, if kind.is_intra() { 1 } else { 0 }, Shape::Single);
         }
@@ -449,6 +474,7 @@ fn maybe_stuffing(g: &mut Gen) -> u8 {
 
 pub fn gen_intra_pic_with(g: &mut Gen, cfg: &PicCfg, mode: Mode, version: u8, size: Size) -> Pic {
     let hdr = gen_header(g, mode, version, size, PicType::I);
+    g.block_pool.clear();
     let (mbw, mbh) = hdr.mb_dims().unwrap();
     let total = mbw * mbh;
     let odds = detail_odds(total, cfg);
@@ -509,11 +535,35 @@ pub fn respell(g: &mut Gen, mode: Mode, size: Size) -> Size {
     *g.pick(&opts)
 }
 
+/// Make the freshly generated header of a predicted picture consistent with the pictures it
+/// follows (`like`: the latest intra picture, or any picture predicted from it).
+pub fn follow(hdr: &mut Header, like: &Header) {
+    if hdr.plus == PlusForm::Brief && like.umv_coded() {
+        // a header that restates nothing would inherit the earlier picture's UMV mode; the
+        // predicted pictures generated here are baseline-mode pictures and say so
+        hdr.plus = PlusForm::Full;
+    }
+    if like.mode == Mode::Standard {
+        // Reference Picture Selection mode: a whole chain of pictures (an intra picture and the
+        // pictures predicted from it) has it on or off, so that a header which restates nothing
+        // (and inherits the mode from whatever picture of the chain came before it) is written
+        // correctly whichever picture of the chain `like` is. A baseline header cannot state the
+        // mode, so a chain with the mode on has none.
+        let on = like.rps_in_force();
+        if on && hdr.plus == PlusForm::Baseline {
+            hdr.plus = PlusForm::Full;
+        }
+        hdr.rps = on && hdr.plus != PlusForm::Baseline;
+    }
+}
+
 pub fn gen_inter_pic(g: &mut Gen, cfg: &PicCfg, like: &Header, ptype: PicType, allow_truncation: bool) -> Pic {
     // usually the size is spelled as in the earlier picture; sometimes the same dimensions are
     // signalled in another way (a predicted picture must only match its reference's dimensions)
     let size = if g.chance(1, 6) { respell(g, like.mode, like.size) } else { like.size };
-    let hdr = gen_header(g, like.mode, like.version, size, ptype);
+    let mut hdr = gen_header(g, like.mode, like.version, size, ptype);
+    follow(&mut hdr, like);
+    g.block_pool.clear();
     let (mbw, mbh) = hdr.mb_dims().unwrap();
     let total = mbw * mbh;
     let odds = detail_odds(total, cfg);
